@@ -370,23 +370,42 @@ impl Check for C20 {
                 st.class(f.0);
             }
         }
-        if let Some((at, token)) = a.failures.first() {
-            // the source failed after `at` bytes: everything completely contained in them, then the error itself
+        if let Some((_at, _token)) = a.failures.first() {
+            // The source failed. C20 speaks of how the bytes are split, not of failing sources, so the oracle is the narrow
+            // one for injected faults: nothing wrong may come out. The items before the error must be a prefix of what the
+            // blocking iterator makes of the whole input (how many of them come first is the wrapper's business: it may
+            // read ahead), the failure must come out as a read error of the source's kind, and the run must not end as
+            // if the input were complete.
             st.inc("fault_async_read_error_delivered");
-            let pre = reference_prefix(c, *at);
-            if pre.panic().is_some() || pre.step_cap_hit {
-                st.inc("skipped_reference_not_total");
-                return Ok(ExecOk { nontrivial: false });
+            if let Some(Ev::Panic(p)) = a.evs.last() {
+                fail!("panic", "the async iterator panicked after the source failed: {}", p);
             }
-            let mut want: Vec<Ev> = pre.ok_prefix().into_iter().map(|(t, o)| Ev::Tag(t, o)).collect();
+            if let Some(e) = &a.exec_error {
+                fail!("no-progress", "{} (after an injected read error)", e);
+            }
             let kind = c.script.events.iter().find_map(|e| if let AEv::Fail(k) = e { Some(*k) } else { None }).unwrap_or(0);
-            want.push(Ev::Err(crate::val::ErrV::Read { kind: format!("{:?}", crate::io::FAULT_KINDS[kind as usize % crate::io::FAULT_KINDS.len()]), token: *token }));
-            let mut synthetic = pre;
-            synthetic.evs = want;
-            if a.evs.len() > 1 {
+            let want_kind = format!("{:?}", crate::io::FAULT_KINDS[kind as usize % crate::io::FAULT_KINDS.len()]);
+            let full = strip(&refr.evs, c.use_stream);
+            let got = strip(&a.evs, c.use_stream);
+            let items: Vec<&Ev> = got.iter().take_while(|e| matches!(e, Ev::Tag(..))).collect();
+            for (i, e) in items.iter().enumerate() {
+                if full.get(i) != Some(*e) {
+                    fail!("wrong-item-before-read-error", "item {} before the injected read error is {} but the blocking iterator over the whole input gives {}", i, e.short(), full.get(i).map(|x| x.short()).unwrap_or("<end>".into()));
+                }
+            }
+            match got.get(items.len()) {
+                Some(Ev::Err(crate::val::ErrV::Read { kind, .. })) if *kind == want_kind => {
+                    st.inc("probe_async_read_error_carried");
+                }
+                Some(Ev::None) | None if items.len() + 1 >= full.len() && refr.first_error().is_none() => {
+                    // everything had been emitted before the failing read mattered
+                    st.inc("async_read_error_after_everything_was_emitted");
+                }
+                other => fail!("read-error-lost", "the source failed with {} but after {} items the async iterator gives {} (the blocking iterator over the whole input: {})", want_kind, items.len(), other.map(|x| x.short()).unwrap_or("<nothing>".into()), refr.short(20)),
+            }
+            if items.len() > 0 {
                 st.inc("probe_items_before_async_read_error");
             }
-            judge(c, &synthetic, &a)?;
             return Ok(ExecOk { nontrivial: a.evs.len() >= 2 });
         }
         judge(c, &refr, &a)?;
@@ -475,7 +494,7 @@ impl Check for C20 {
     }
 
     fn rule(&self) -> &'static str {
-        "One case = specification + input (valid / truncated / byte-faulted; some larger than the 64 KiB transfer buffer) + buffered-id set + an async delivery schedule (fill-the-buffer reads, fixed small reads down to 1 byte, single split, large head then dribble, random compositions; Pending with immediate or deferred wake before a random subset of reads; in one run of eight one read fails with a hard I/O error; in one run of six string payloads are invalid UTF-8 and the caller steps over up to three such errors) driving TagIteratorAsync::next() or the into_stream() adapter on a single-threaded executor; events (items, offsets for next(), first error, single termination) must equal those of the blocking iterator over the same bytes; after an injected read error: exactly the items completely contained in the bytes delivered before it, then a ReadError carrying that error; lost wake-ups and poll budgets are detected. Non-trivial: at least 3 events and at least 2 completed reads. Distinct: FNV-1a fingerprint of bytes + schedule + buffered set. coverage.distinct_schedule_classes counts distinct sets of (parser phase at which an async read ended, nesting depth, innermost master kind) x adapter x Pending/buffered/error flags (inputs <= 600 bytes)."
+        "One case = specification + input (valid / truncated / byte-faulted; some larger than the 64 KiB transfer buffer) + buffered-id set + an async delivery schedule (fill-the-buffer reads, fixed small reads down to 1 byte, single split, large head then dribble, random compositions; Pending with immediate or deferred wake before a random subset of reads; in one run of eight one read fails with a hard I/O error; in one run of six string payloads are invalid UTF-8 and the caller steps over up to three such errors) driving TagIteratorAsync::next() or the into_stream() adapter on a single-threaded executor; events (items, offsets for next(), first error, single termination) must equal those of the blocking iterator over the same bytes; after an injected read error (outside the statement; narrow oracle): the items before it are a prefix of the blocking iterator's over the whole input, then a read error of the source's kind, never a clean end; lost wake-ups and poll budgets are detected. Non-trivial: at least 3 events and at least 2 completed reads. Distinct: FNV-1a fingerprint of bytes + schedule + buffered set. coverage.distinct_schedule_classes counts distinct sets of (parser phase at which an async read ended, nesting depth, innermost master kind) x adapter x Pending/buffered/error flags (inputs <= 600 bytes)."
     }
     fn assumptions(&self) -> Vec<&'static str> {
         vec![
